@@ -153,17 +153,62 @@ def install_strconv(w, Z):
 
 def seq_fork(w):
     """sequential semantics of '#pragma omp parallel for': run the outlined function once over the whole iteration space"""
-    H = w.hooks
+    H = w.hooks; uses_tid = {}
+    def asks_thread_id(name, depth=2):
+        """does the outlined function (or a callee) ask for its thread number / team size?  Then the work is partitioned by hand and a team of one
+           would execute only thread 0's share: such regions are run once per team member (sequentially: a legal schedule of a race-free region)"""
+        if name in uses_tid: return uses_tid[name]
+        uses_tid[name] = False; f = w.funcs.get(name); found = False
+        if f is not None:
+            for lab in f.order:
+                for ins in f.blocks[lab]:
+                    if ins.op in ('call', 'invoke') and isinstance(getattr(ins, 'callee', None), tuple) and ins.callee[0] == 'global':
+                        cn = ins.callee[1]
+                        if cn in ('@omp_get_thread_num', '@omp_get_num_threads'): found = True
+                        elif depth > 0 and cn in w.funcs and not cn.startswith('@__kmpc') and asks_thread_id(cn, depth - 1): found = True
+        uses_tid[name] = found; return found
     def fork(it, a):
         micro = a[2]; name = micro.name if isinstance(micro, FnPtr) else micro
         gt = Ptr(Obj(8, 'gtid', 8, 'alloca'), 0); gt.obj.cells[0] = 0
-        it.call(name, [gt, gt] + list(a[3:])); return None
+        T = 1
+        if asks_thread_id(name):
+            req = [c[1] for c in w.omp_calls if c[0] == 'num_threads']
+            T = req[-1] if req else w.omp_max_threads
+            if not is_c(T): T = it.concretize(T, 32, 'team size of a hand-partitioned parallel region')
+            if T >> 31: T = 1
+            T = max(1, min(int(T), 64))
+        w.omp_calls[:] = [c for c in w.omp_calls if c[0] != 'num_threads'] if T > 1 else w.omp_calls
+        try:
+            for tid in range(T):
+                w.omp_tid = tid; w.omp_team = T
+                it.call(name, [gt, gt] + list(a[3:]))
+        finally: w.omp_tid = 0; w.omp_team = 1
+        return None
     H['@__kmpc_fork_call'] = fork
-    def static_init(bits):
+    H['@omp_get_thread_num'] = lambda it, a: getattr(w, 'omp_tid', 0)
+    H['@omp_get_num_threads'] = lambda it, a: getattr(w, 'omp_team', 1)
+    def static_init(bits, nm_signed=False):
         def h(it, a):
             loc, gtid, sched, plast, plo, pup, pstr, incr, chunk = a
             sched = it.concretize(sched, 32)
             lo = w.load(plo, I(bits)); up = w.load(pup, I(bits))
+            T = getattr(w, 'omp_team', 1); tid = getattr(w, 'omp_tid', 0)
+            if T > 1:
+                # worksharing loop inside a hand-partitioned region executed by a team of T: the static schedule of thread tid
+                lo_c = it.concretize(lo, bits, 'omp lb'); up_c = it.concretize(up, bits, 'omp ub')
+                def sg(x): return x - (1 << bits) if (nm_signed and x >> (bits - 1)) else x
+                n = sg(up_c) - sg(lo_c) + 1
+                if sched == 34:
+                    if n > 0:
+                        small, extras = divmod(n, T); mylo = sg(lo_c) + tid * small + min(tid, extras); myn = small + (1 if tid < extras else 0)
+                        if myn == 0: mylo = sg(up_c) + 1
+                        w.store(plo, I(bits), mylo & mask(bits)); w.store(pup, I(bits), (mylo + myn - 1) & mask(bits))
+                    w.store(plast, I(32), int(tid == T - 1)); return None
+                if sched == 33:
+                    ch = it.concretize(chunk, bits, 'omp chunk'); mylo = sg(lo_c) + tid * ch
+                    w.store(plo, I(bits), mylo & mask(bits)); w.store(pup, I(bits), (mylo + ch - 1) & mask(bits)); w.store(pstr, I(bits), (T * ch) & mask(bits))
+                    w.store(plast, I(32), int(tid == T - 1)); return None
+                raise Unsupported('omp schedule %d' % sched)
             if sched == 34:      # static, unchunked, team of one: the whole iteration space
                 pass
             elif sched == 33:    # static chunked, team of one: chunks [lo, lo+chunk-1], stride = chunk (the outlined code loops over chunks)
@@ -173,7 +218,7 @@ def seq_fork(w):
             w.store(plast, I(32), 1); return None
         return h
     for nm, b in (('@__kmpc_for_static_init_8u', 64), ('@__kmpc_for_static_init_8', 64), ('@__kmpc_for_static_init_4u', 32), ('@__kmpc_for_static_init_4', 32)):
-        H[nm] = static_init(b)
+        H[nm] = static_init(b, not nm.endswith('u'))
     H['@__kmpc_for_static_fini'] = lambda it, a: None
     H['@__kmpc_global_thread_num'] = lambda it, a: 0
     H['@__kmpc_push_num_threads'] = lambda it, a: w.omp_calls.append(('num_threads', a[2]))
